@@ -782,7 +782,10 @@ fn sched_run(prop: &str, run: usize, seed: u64) -> Vec<J> {
     use crate::driver::*;
     use digital_test_runner::errors::IterationError;
     use digital_test_runner::verif;
-    let mut g = Gen::new(seed, Knobs { p_c: 0.08, p_x: 0.05, bidir: true, max_stmts: 10, max_virtuals: 1, allow_random: false, p_device: if run % 2 == 0 { 0.0 } else { 0.3 }, ..Knobs::control_flow() });
+    // (every fourth test - never a static one - draws random numbers and resets the generator: each live iterator has a generator
+    // of its own, so stepping the others in between changes neither its draws nor what `resetRandom` replays)
+    let draws = run % 4 == 3;
+    let mut g = Gen::new(seed, Knobs { p_c: 0.08, p_x: 0.05, bidir: true, max_stmts: 10, max_virtuals: 1, allow_random: draws, p_reset: if draws { 0.15 } else { 0.02 }, p_device: if run % 2 == 0 { 0.0 } else { 0.3 }, ..Knobs::control_flow() });
     if run % 2 == 0 {
         // static tests may declare virtual signals too, as long as these read nothing either (constant expressions, below)
         g.k.max_virtuals = if run % 6 == 0 { 2 } else { 0 };
@@ -793,7 +796,8 @@ fn sched_run(prop: &str, run: usize, seed: u64) -> Vec<J> {
         fn constant_declares(stmts: &mut [Stmt], rng: &mut StdRng) {
             for s in stmts {
                 match s {
-                    Stmt::Declare { e, .. } => *e = Expr::bin(["+", "*", "<<"].choose(rng).unwrap(), Expr::Num(rng.gen_range(0..9)), Expr::Num(rng.gen_range(0..5))),
+                    // (now and then one that cannot be evaluated - a division by zero: an error item at every checked row, static or not)
+                    Stmt::Declare { e, .. } => *e = Expr::bin(["+", "*", "<<", "/", "%"].choose(rng).unwrap(), Expr::Num(rng.gen_range(0..9)), Expr::Num(rng.gen_range(0..5))),
                     Stmt::Loop { body, .. } | Stmt::While { body, .. } => constant_declares(body, rng),
                     _ => {}
                 }
